@@ -583,10 +583,11 @@ func runWire(c Case, tr *Tracer) {
 		var bytes []byte
 		var err error
 		if guard(func() { bytes, err = obj.IEncode() }) {
-			tr.emit(Ev{"ev": "RT", "type": tn, "p": p, "encerr": true, "bytes": []int{}, "decerr": true, "p2": map[string]interface{}{"x": 0}, "hlen2": []int{}, "site": tn + ".IEncode.panic"})
+			tr.emit(Ev{"ev": "RT", "type": tn, "p": p, "encerr": true, "bytes": []int{}, "decerr": true, "p2": map[string]interface{}{"x": 0}, "hlen2": []int{}, "site": tn + ".IEncode.panic", "dtype": "skip", "dsame": true})
 			return
 		}
-		e := Ev{"ev": "RT", "type": tn, "p": p, "encerr": err != nil, "bytes": B(bytes), "decerr": true, "p2": map[string]interface{}{"x": 0}, "hlen2": []int{}, "site": tn}
+		e := Ev{"ev": "RT", "type": tn, "p": p, "encerr": err != nil, "bytes": B(bytes), "decerr": true, "p2": map[string]interface{}{"x": 0}, "hlen2": []int{}, "site": tn,
+			"dtype": "skip", "dsame": true}
 		if err == nil {
 			fresh := ctors[tn]()
 			var derr error
@@ -600,6 +601,16 @@ func runWire(c Case, tr *Tracer) {
 				e["decerr"] = false
 				e["p2"] = project(tn, fresh)
 				e["hlen2"] = headerLen(fresh)
+				// the package's dispatcher is the other way into the same decoder: both must read the image alike
+				if tn != "cmpp.SubPduDeliveryContent" {
+					dt, dp := dispatchName(tn[:6], img)
+					e["dtype"] = dt
+					if dp != nil && dt == tn {
+						if cp, ok := dp.(codecPDU); ok {
+							e["dsame"] = snapJSON(project(tn, cp)) == snapJSON(e["p2"])
+						}
+					}
+				}
 			}
 		}
 		tr.emit(e)
